@@ -86,7 +86,7 @@ Section Scope.
   Theorem tg_fv_scope : forall t, SC t.
   Proof.
     induction t using fterm_ind'; intros G Hg z Hz.
-    - rewrite tg_var in Hg. apply andb_prop in Hg. destruct Hg as [Hv _]. apply var_ok_look in Hv.
+    - rewrite tg_var in Hg. pose proof Hg as Hv. apply var_ok_look in Hv.
       destruct Hv as [ty0 [_ Hv]]. simpl in Hz. destruct Hz as [<-|[]]. unfold bound_in. rewrite Hv. discriminate.
     - contradiction.
     - rewrite tg_op in Hg. apply andb_prop in Hg. destruct Hg as [Hg _]. apply andb_prop in Hg. destruct Hg as [Hg _].
@@ -94,7 +94,7 @@ Section Scope.
       destruct Hz as [Hz|Hz]; [eapply IHt1 | eapply IHt2]; eassumption.
     - rewrite tg_ifc in Hg.
       apply andb_prop in Hg. destruct Hg as [Hg _]. apply andb_prop in Hg. destruct Hg as [Hg _].
-      apply andb_prop in Hg. destruct Hg as [Hg _]. apply andb_prop in Hg. destruct Hg as [Hg Hg3].
+      apply andb_prop in Hg. destruct Hg as [Hg Hg3].
       apply andb_prop in Hg. destruct Hg as [Hg Hg2]. apply andb_prop in Hg. destruct Hg as [Hg Hgb].
       apply andb_prop in Hg. destruct Hg as [Hg1 _].
       simpl in Hz. apply in_app_or in Hz. destruct Hz as [Hz|Hz]; [eapply IHt1; eassumption|].
@@ -201,7 +201,7 @@ Section Scope.
       + eapply IHt2; eassumption.
     - rewrite tg_ifc in Hg.
       apply andb_prop in Hg. destruct Hg as [Hg _]. apply andb_prop in Hg. destruct Hg as [Hg _].
-      apply andb_prop in Hg. destruct Hg as [Hg _]. apply andb_prop in Hg. destruct Hg as [Hg Hg3].
+      apply andb_prop in Hg. destruct Hg as [Hg Hg3].
       apply andb_prop in Hg. destruct Hg as [Hg Hg2]. apply andb_prop in Hg. destruct Hg as [Hg Hgb].
       apply andb_prop in Hg. destruct Hg as [Hg1 _].
       simpl in Hz. simpl. apply in_app_or in Hz. destruct Hz as [Hz|Hz].
